@@ -334,8 +334,22 @@ class Expander:
             if choice == "skip":
                 return
             if choice == "once":
+                # one generic iteration: the element variable stands for the generic element of the iterated array
+                elem_t, idx_t, it = st.target, None, st.iter
+                if isinstance(it, ast.Call) and isinstance(it.func, ast.Name) and it.func.id == "enumerate" and len(it.args) == 1 \
+                        and isinstance(st.target, ast.Tuple) and len(st.target.elts) == 2:
+                    idx_t, elem_t, it = st.target.elts[0], st.target.elts[1], it.args[0]
+                bound = False
+                if isinstance(elem_t, ast.Name) and not (isinstance(it, ast.Call) and isinstance(it.func, ast.Name) and it.func.id == "range"):
+                    try:
+                        v = self.eval(it, env)
+                        if isinstance(v, R):
+                            env[elem_t.id] = v
+                            bound = True
+                    except Unsupported:
+                        pass
                 for n in ast.walk(st.target):
-                    if isinstance(n, ast.Name):
+                    if isinstance(n, ast.Name) and not (bound and n.id == elem_t.id):
                         self.loopvars.add(n.id)
                 self.exec_block(st.body, env)
                 return
@@ -370,6 +384,12 @@ class Expander:
                 except Unsupported:
                     return
                 if isinstance(base, ListV):
+                    try:
+                        self.eval(node.args[-1], env)
+                    except Unsupported:
+                        # an element outside the modelled subset: the list keeps an opaque marker (never equal to anything)
+                        base.items.append(R.sym(f"<unmodelled@{node.lineno}>"))
+                        return
                     if meth == "append":
                         base.items.append(self.eval(node.args[0], env))
                     elif meth == "extend":
